@@ -2057,6 +2057,8 @@ class UnitQuaternion(Quaternion):
                     [ 0.29552021,  0.95533649,  0.        ],
                     [ 0.        ,  0.        ,  1.        ]]))
         """
+        if len(self) > 1:
+            return SO3([base.q2r(q) for q in self.data], check=False)
         return SO3(self.R, check=False)
 
     def SE3(self):
